@@ -141,7 +141,7 @@ func exact(c *vp.Child) {
 	if c.Batch == 0 && c.Stage == "exact" {
 		desync(c)
 	}
-	n := c.Pick(2500, 40000)
+	n := c.Pick(2500, 20000)
 	if strings.HasSuffix(c.Stage, "-race") {
 		n = c.Pick(40, 600)
 	}
